@@ -1227,6 +1227,8 @@ var regressFallback = []patCase{
 	{Ast: Cat(Class(false, Single(Lit('('))), Grp(KLa, Lit('a'))), Family: "lookahead"},
 	{Ast: Grp(KGrp, Grp(KNcg, Grp(KLb, Class(true)))), Family: "lookbehind"},
 	{Ast: Cat(Esc(FCx, 10, 0), Grp(KGrp, Lit('a')), &Node{K: KBref, Min: 1}), Family: "backreference"},
+	{Ast: Cat(Grp(KGrp, Lit('a')), Grp(KGrp, Lit('b')), Grp(KGrp, Lit('c')), Grp(KGrp, Lit('d')), Grp(KGrp, Lit('e')), Grp(KGrp, Lit('f')), Grp(KGrp, Lit('g')),
+		Grp(KGrp, Lit('h')), Grp(KGrp, Lit('i')), Grp(KGrp, Lit('j')), &Node{K: KBref, Min: 10}), Family: "backreference-two-digits"},
 }
 
 func TestFallback(t *testing.T) {
